@@ -1,5 +1,5 @@
 From Coq Require Import ZArith List.
-From PV Require Import Base.U64 C19.C19_Model C19.C19_Lib C19.C19_Inv C19.C19_Proofs C19.C19_Mtx C19.C19_Time.
+From PV Require Import Base.U64 C19.C19_Model C19.C19_Lib C19.C19_Inv C19.C19_Proofs C19.C19_Mtx C19.C19_Time C19.C19_V2.
 Theorem oc_invariant : forall now life lim progs s, reachable (init_state now life lim progs) s -> Inv s.
 Proof. exact reachable_inv. Qed.
 Print Assumptions oc_invariant.
@@ -70,3 +70,9 @@ Theorem oc_cooldown_elapsed_constructs : forall s t th i ok y cd it,
   exists r th', step s t = Some r /\ nth_error (s_thr (r_st r)) t = Some th' /\ t_pc th' = PAcqCtor i ok y.
 Proof. exact cooldown_elapsed_constructs. Qed.
 Print Assumptions oc_cooldown_elapsed_constructs.
+Theorem v2_borrow_touches_box_after_release_refuted : exists life sched, v_uaf (vrun (vinit 1000 life 2) sched) = true.
+Proof. exact v2_borrow_dtor_uaf_refuted. Qed.
+Print Assumptions v2_borrow_touches_box_after_release_refuted.
+Theorem v2_no_use_after_free_on_one_vcpu : forall now life n sched, v_uaf (fold_left coop_act sched (vinit now life n)) = false.
+Proof. exact v2_single_vcpu_no_uaf. Qed.
+Print Assumptions v2_no_use_after_free_on_one_vcpu.
